@@ -19,6 +19,15 @@ func init() {
 			case 'a':
 				bl.AddBit(op[1] == '1')
 				out = append(out, "-")
+			case 'A': // one variadic AddBit call with many bits: A<n>:<seed> (bit i = parity of popcount(i*seed+i>>3))
+				p := strings.Split(op[1:], ":")
+				n, seed := atoi(p[0]), atoi(p[1])
+				bits := make([]bool, n)
+				for i := range bits {
+					bits[i] = batchBit(i, seed)
+				}
+				bl.AddBit(bits...)
+				out = append(out, "-")
 			case 'y':
 				bl.AddByte(byte(atoi(op[1:])))
 				out = append(out, "-")
@@ -60,4 +69,15 @@ func init() {
 		}
 		return strings.Join(out, " ") + " | " + sb.String()
 	})
+}
+
+// deterministic pseudo-random bit pattern shared with the OCaml driver
+func batchBit(i, seed int) bool {
+	x := (i*seed + (i >> 3) + seed) & 0xFFFF
+	c := 0
+	for x != 0 {
+		c += x & 1
+		x >>= 1
+	}
+	return c%2 == 1
 }
